@@ -45,6 +45,66 @@ def linear(e, classify):
     return None
 
 
+def block_linear(repo, fi, e):
+    """size algebra for CBlock methods: expression -> linear form over
+       '1' (bytes), 'V' (size of the CompactSize transaction count), 'S' (sum of stripped tx sizes), 'F' (sum of full tx sizes)
+    using the C01 layouts: header = 80 bytes, block = header + V + transactions.  None if outside the algebra."""
+    def add(a, b, k=1):
+        out = dict(a)
+        for x, v in b.items():
+            out[x] = out.get(x, 0) + k * v
+        return out
+
+    def strip_arg(call):
+        for a in list(call.args) + [k.value for k in call.keywords]:
+            v = repo.fold(a, fi.module, cls=fi.cls)
+            if isinstance(v, dict) and v.get('include_witness') is False:
+                return True
+        return False
+    if isinstance(e, ast.Constant) and isinstance(e.value, int):
+        return {'1': e.value}
+    if isinstance(e, ast.Name):
+        defs = [n.value for n in walk_no_nested(fi.node) if isinstance(n, ast.Assign) and len(n.targets) == 1 and norm(n.targets[0]) == e.id]
+        if len(defs) == 1:
+            return block_linear(repo, fi, defs[0])
+        v = repo.fold(e, fi.module, cls=fi.cls)
+        return {'1': v} if isinstance(v, int) and not isinstance(v, bool) else None
+    if isinstance(e, ast.BinOp) and isinstance(e.op, (ast.Add, ast.Sub)):
+        a, b = block_linear(repo, fi, e.left), block_linear(repo, fi, e.right)
+        if a is None or b is None:
+            return None
+        return add(a, b, 1 if isinstance(e.op, ast.Add) else -1)
+    if isinstance(e, ast.BinOp) and isinstance(e.op, ast.Mult):
+        for x, y in ((e.left, e.right), (e.right, e.left)):
+            k = repo.fold(y, fi.module, cls=fi.cls)
+            if isinstance(k, int) and not isinstance(k, bool):
+                a = block_linear(repo, fi, x)
+                return None if a is None else {n: v * k for n, v in a.items()}
+        return None
+    if isinstance(e, ast.Call) and norm(e.func) == 'len' and len(e.args) == 1:
+        x = e.args[0]
+        if isinstance(x, ast.Call) and isinstance(x.func, ast.Attribute) and x.func.attr == 'serialize':
+            recv = norm(x.func.value)
+            if recv == 'self':
+                return {'1': 80, 'V': 1, 'S' if strip_arg(x) else 'F': 1}
+            if recv == 'self.get_header()':
+                return {'1': 80}
+            if recv == 'VarIntSerializer' and len(x.args) == 1 and norm(x.args[0]) == 'len(self.vtx)':
+                return {'V': 1}
+        return None
+    if isinstance(e, ast.Call) and norm(e.func) == 'sum' and len(e.args) == 1 and isinstance(e.args[0], (ast.GeneratorExp, ast.ListComp)):
+        g = e.args[0]
+        if len(g.generators) == 1 and norm(g.generators[0].iter) == 'self.vtx' and not g.generators[0].ifs:
+            v = norm(g.generators[0].target)
+            el = g.elt
+            if norm(el) == '%s.calc_weight()' % v:
+                return {'S': 3, 'F': 1}  # per-transaction weight as decided by calc_weight's own rule
+            if isinstance(el, ast.Call) and norm(el.func) == 'len' and isinstance(el.args[0], ast.Call) and norm(el.args[0].func) == '%s.serialize' % v:
+                return {'S' if strip_arg(el.args[0]) else 'F': 1}
+        return None
+    return None
+
+
 def rule_weight(ctx, repo):
     r = ctx.rule('C15.W1', 'weight = 3 x stripped size + full size (4 x full size only when the witness is empty)', engine='RULES', floor=4)
     tx = repo.get_class(CORE + 'CTransaction')
@@ -88,15 +148,17 @@ def rule_weight(ctx, repo):
                        % (lin, norm(p.endnode.value), '' if null is not True else ' (4 x full size is equal only when the witness is empty)'))
     blk = repo.get_class(CORE + 'CBlock')
     gw = repo.lookup_method(blk, 'GetWeight')
-    fi = gw
-    stripped_vars = {}
     rets = [n for n in walk_no_nested(gw.node) if isinstance(n, ast.Return)]
     if len(rets) == 1:
-        lin = linear(rets[0].value, classify)
+        lin = block_linear(repo, gw, rets[0].value)
+        ref = {'1': 4 * 80, 'V': 4, 'S': 3, 'F': 1}
         if lin is None:
-            r.undecided('GetWeight', gw.site, 'block weight expression `%s` is not a sum of multiples of serialised sizes of the block' % norm(rets[0].value)[:90])
+            r.undecided('GetWeight', gw.site, 'block weight expression `%s` is outside the size algebra (sums of serialised sizes of the block, its header and its transactions)' % norm(rets[0].value)[:90])
         else:
-            r.check(lin == {'stripped': 3, 'full': 1}, 'GetWeight', gw.site, str(lin), 'block weight is computed as %s; BIP141: 3 x stripped size + full size' % lin)
+            lin = {k: v for k, v in lin.items() if v}
+            r.check(lin == ref, 'GetWeight', gw.site, '4*80 + 4*count-prefix + 3*sum(stripped tx) + sum(full tx)',
+                    'block weight is %s over {1, V = size of the transaction-count prefix, S = stripped tx sizes, F = full tx sizes}; BIP141 3 x stripped + full = %s%s'
+                    % (lin, ref, ' (the count prefix is assumed to have a fixed size)' if lin.get('V', 0) != 4 else ''))
     else:
         r.undecided('GetWeight', gw.site, 'not a single return')
     ws = repo.lookup_method(blk, 'stream_serialize')
